@@ -11,6 +11,7 @@ import (
 	"os"
 	"sort"
 	"strings"
+	"sync"
 
 	"verif/gbk"
 	"verif/vrt"
@@ -18,10 +19,22 @@ import (
 
 const property = "C07"
 
+// Batch layout: the classic batches first (seed packages, probes, random packages), then - appended,
+// so that the PRNG streams of the classic batches keep their numbers - the nil-able-kinds seed
+// package and the annotation-combination case.
+func classicBatches(tier string) int {
+	if tier == "thorough" {
+		return 160
+	}
+	return 13
+}
+
 func buildPkg(w *vrt.W, i int) *gbk.Pkg {
 	r := w.Rand(i)
 	name := fmt.Sprintf("pk%d", w.Batch)
 	switch {
+	case w.Batch == classicBatches(w.Tier):
+		return gbk.NilableSeedPackage(r, name)
 	case w.Batch < gbk.NumSeeds:
 		return gbk.SeedPackage(r, w.Batch, name)
 	case w.Batch == gbk.NumSeeds+1:
@@ -48,22 +61,92 @@ func position(i, n int) string {
 	return "middle"
 }
 
+func values(w *vrt.W) int {
+	if w.Tier == "thorough" {
+		return 96
+	}
+	return 64
+}
+
 func runCase(w *vrt.W, tool *gbk.Tool, i int) {
+	if w.Batch == classicBatches(w.Tier)+1 {
+		runCombos(w, tool, i)
+		return
+	}
 	p := buildPkg(w, i)
 	w.Begin(i, "gombok")
 	var out *gbk.Outcome
 	witness := func() any { return map[string]any{"input": p.Source()} }
-	values := 64
-	if w.Tier == "thorough" {
-		values = 96
-	}
 	w.Guard(i, witness, func() {
-		out = gbk.RunPackage(tool, p, gbk.Options{Prefix: "gombok/value", Seed: w.CaseSeed(i) % 1000000, Values: values, ValueLaws: true, KeepDir: os.Getenv("VERIF_KEEP")})
+		out = gbk.RunPackage(tool, p, gbk.Options{Prefix: "gombok/value", Seed: w.CaseSeed(i) % 1000000, Values: values(w), ValueLaws: true, KeepDir: os.Getenv("VERIF_KEEP")})
 	})
 	w.Done(i)
 	if out == nil {
 		return
 	}
+	record(w, i, p, out)
+}
+
+// runCombos is ONE case: every subset of gbk.ComboAnnotations (singles, pairs, triples, the full set, PRNG
+// samples of larger ones) on one struct each, spread over several packages that are processed
+// concurrently; compile errors are keyed over all of them by the minimal failing subsets.
+func runCombos(w *vrt.W, tool *gbk.Tool, i int) {
+	r := w.Rand(i)
+	nPkg, extra := 6, 12
+	if w.Tier == "thorough" {
+		nPkg, extra = 8, 80
+	}
+	pkgs := gbk.ComboPackages(r, "cb", nPkg, extra)
+	outs := make([]*gbk.Outcome, len(pkgs))
+	w.Begin(i, "gombok")
+	w.Guard(i, func() any { return map[string]any{"input": "annotation-combination packages"} }, func() {
+		var wg sync.WaitGroup
+		for k := range pkgs {
+			wg.Add(1)
+			go func(k int) {
+				defer wg.Done()
+				outs[k] = gbk.RunPackage(tool, pkgs[k], gbk.Options{Prefix: "gombok/value", Seed: (w.CaseSeed(i) + uint64(k)) % 1000000, Values: 24, ValueLaws: true, KeepDir: os.Getenv("VERIF_KEEP")})
+			}(k)
+		}
+		wg.Wait()
+	})
+	w.Done(i)
+	var errs []gbk.ComboCompileError
+	owner := map[*gbk.Struct]*gbk.Pkg{}
+	for k, p := range pkgs {
+		for _, s := range p.Structs {
+			owner[s] = p
+		}
+		if outs[k] == nil {
+			continue
+		}
+		record(w, i, p, outs[k])
+		errs = append(errs, outs[k].ComboErrs...)
+		w.Add("combos.structs", int64(len(p.Structs)))
+		for _, s := range outs[k].Tested {
+			if s.Combo == nil {
+				continue // the @fp.Value base of the derived declarations
+			}
+			w.Add("combos.structs.laws-ran", 1)
+			w.Add(fmt.Sprintf("combos.laws-ran.size-%d", min(len(s.Combo.Anns), 4)), 1)
+			w.Add("combos.laws-ran.layout."+s.Combo.Layout, 1)
+		}
+		w.Add("combos.structs.refused", int64(len(outs[k].Refused)))
+	}
+	failing := map[*gbk.Struct]bool{}
+	for _, e := range errs {
+		failing[e.Struct] = true
+	}
+	w.Add("combos.structs.generated-code-does-not-compile", int64(len(failing)))
+	fs, explained := gbk.ComboFindings("gombok/value", errs, func(s *gbk.Struct) string { return s.Source(owner[s]) })
+	w.Add("combos.failing-subsets.explained-by-a-failing-subset", int64(explained))
+	w.Add("combos.failing-subsets.minimal", int64(len(fs)))
+	for _, f := range fs {
+		w.Violation(i, f.Key, f.Detail, f.Witness)
+	}
+}
+
+func record(w *vrt.W, i int, p *gbk.Pkg, out *gbk.Outcome) {
 	w.Add("packages", 1)
 	w.Add("gombok_runs", int64(out.GombokRuns))
 	w.Add("structs", int64(len(p.Structs)))
@@ -182,10 +265,7 @@ func main() {
 	vrt.Main(vrt.Config{
 		Property: property,
 		Batches: func(tier string) int {
-			if tier == "thorough" {
-				return 160
-			}
-			return 13
+			return classicBatches(tier) + 2
 		},
 		Cases:    func(tier string, b int) int { return 1 },
 		Parallel: 16,
